@@ -1312,8 +1312,8 @@ class ParserStream(Stream):
 
 CHECK = Check(
     prop="C11",
-    gen=["RangeTbl", "EtagTbl", "CondConsts", "PyFns_Internal", "PyFns_Range", "Http", "PyFns_Http", "PyFns_HttpDict", "PyFns_Etag", "PyFns_Response", "CacheSetTable", "Containers", "Response", "ResponseProps", "UrlTables", "Views"],
-    modules=["WzVerif.Props.C11", "WzVerif.Props.C11T", "WzVerif.Props.C11T2", "WzVerif.Props.C11T3"],
+    gen=["RangeTbl", "EtagTbl", "CondConsts", "PyFns_Internal", "PyFns_Range", "Http", "PyFns_Http", "PyFns_HttpDict", "PyFns_Etag", "PyFns_Response", "CacheSetTable", "Containers", "Response", "ResponseProps", "UrlTables", "Views", "PyFns_IfRange"],
+    modules=["WzVerif.Props.C11", "WzVerif.Props.C11T", "WzVerif.Props.C11T2", "WzVerif.Props.C11T3", "WzVerif.Props.C11T4"],
     streams=[ConditionalStream(), RangesStream(), SendFileStream(), ParserStream(), PreludeKernels()],
     assumptions=[
         "C11T3 (Response.make_conditional as regenerated from the source, accept_ranges: bool): what the method asks of the environ / headers (REQUEST_METHOD, Date present, is_resource_modified(...), truthiness of parse_etags(If-Match), automatically_set_content_length, Content-Length present, calculate_content_length()) are parameters, instantiated from Model/Conditional.lean in the theorems; header / status writes are recorded in out_* attributes (Content-Length written by _process_range_request counts as present)",
